@@ -35,7 +35,7 @@ CLAIMED = {
  "C05": dict(
    text="Theorems: C05_suffix_parse (is_possible_plural iff key = base(_ordinal)?_form), C05_cand_insert + C05_loop_candidate (same base+form twice = cardinal/ordinal clash -> error), C05_finish_group (merged iff >=2 candidates incl. other; errors InvalidKey / "
         "ConflictingPluralRuleType / PluralsAtNormalKey in that order), C05_unused_forms, C05_render_plural + C05_parse_time_eq_run_time (form of the CLDR category else other, same at parse time and run time); whole map (Theorems/C05Map.lean): C05_merge_plurals_map / _all_levels (merge_plurals = a declarative specification — group by base, decide per group — on every level: same map, same error, same warnings in the same order), C05_nonplural_keys_untouched, C05_merged_key_iff, C05_forms_exact. "
-        "Correspondence: all form subsets x cardinal/ordinal x 10 locales (en fr ru ar pl ja cy ga he lt): merged keys, warnings, errors and the form rendered for counts 0..=200, 10^6, 1.5 via the ICU4X oracle.",
+        "Correspondence: all form subsets x cardinal/ordinal x 10 locales (en fr ru ar pl ja cy ga he lt): merged keys, warnings, errors and the form rendered for counts 0..=200, 10^6, 1.5 via the ICU4X oracle; literal counts (integers and decimals) through references whose plural is inherited from another locale; the six t*_plural*! macros at run time vs ICU4X PluralRules; probe crates over en fr cy ru pt pt-PT rendered in one process.",
    note=BASE + "CLDR plural rules (ICU4X compiled data) are an oracle, not verified. Hypotheses of the whole-map theorem (sorted keys without white space) are what decoding establishes (C05_map_decoded_keys_wf, per level).", tech=P, ref="§6 C05, notes/C05.md"),
  "C06": dict(
    text="Theorems: C06_populate_subst (eval of populate v args = eval of v under the substituted environment: variables, literal counts fixing the branch, renamed counts; mutual induction over all value kinds), C06_populate_chain, "
@@ -60,7 +60,7 @@ CLAIMED = {
  "C10": dict(
    text="Theorems: C10_amap_perm (BTreeMap built from a permutation of entries with distinct keys is the same map), C10_locale_keys_perm (decoding an object is invariant under permutation of its entries — no distinctness hypothesis since the fix of F13: C10_duplicate_key_rejected, C10_locale_keys_perm_fails), "
         "C10_duplicate_key_order_dependent (the pre-fix behaviour, kept as the regression witness); with C06_order_independent for the visiting order of foreign keys; whole files and pipeline (Theorems/C10Pipeline.lean): C10_decode_perm, C10_pipeline_perm(_full/_eq_of_ok/_after_decoding/_lookup) for entries permuted in any object at any depth (equal runs, or two decoding failures that are candidates of both files), C10_pipeline_deterministic. The model is a pure function, which gives run-to-run determinism of what it covers. Correspondence: each project loaded twice, with permuted entries, "
-        "and written as JSON / JSON5 / YAML (three feature builds): identical keys, diagnostics and rendered text; generated code of two fresh generator processes identical.",
+        "and written as JSON / JSON5 / YAML (three feature builds): identical keys, diagnostics and rendered text; generated code of two fresh generator processes identical; the inline declare_locales! macro under key reordering (compiled probe crate, texts equal to the file loader's).",
    note=BASE + "YAML/JSON5 front-ends are oracles compared through the implementation's dumps. Keys equal after trimming (F13) are rejected since fix b1a986a.", tech=P, ref="§6 C10, notes/C10.md"),
  "C11": dict(
    text="Theorems: C11_push_str, C11_index_sound/_full (after index_strings every string literal carries an index i with table[i] = its text; table grows at the end, no duplicates), C11_table_length (count = table length for every locale; propagate gives nested subkey locales "
@@ -94,8 +94,8 @@ CLAIMED = {
    tech="Lean 4 proof (decision logic) + exhaustive differential correspondence", ref="§6 C15, notes/C15.md"),
  "C16": dict(
    text="Refinement theorem: for every operation sequence over a tree of contexts (set, set_untracked, get, scope, subcontext, closures) the model's observations equal the abstract spec CtxId→Locale "
-        "(latest set wins; scoped views share the cell; sub-contexts isolated) — C16_refinement, C16_isolation(_seq), C16_scope_shares; reactive observers: C16_memo_refinement (Memos with leptos' laziness modelled: a tracked set marks every observer dirty, an untracked one none — C16_tracked_set_notifies(_after_untracked), C16_untracked_set_keeps_cache); provider components over an owner tree: C16_provider_scoping(_seq), C16_sibling_provider_inits_from_parent. Correspondence: random op sequences (set/set_untracked/get/scope/subcontext/memos over get_locale, t_string!, td_string!, t_display!, t_plural!/provider/child owner/use_context, accessors of every macro flavour incl. t_plural!) on real I18nContexts and leptos owners vs model vs spec.",
-   note=BASE + "leptos' reactive runtime (closure re-execution, RwSignal atomicity, effects) is trusted; the RenderEffect wiring an initial-locale signal is inert under ssr. See notes/C16.md.",
+        "(latest set wins; scoped views share the cell; sub-contexts isolated) — C16_refinement, C16_isolation(_seq), C16_scope_shares; reactive observers: C16_memo_refinement (Memos with leptos' laziness modelled: a tracked set marks every observer dirty, an untracked one none — C16_tracked_set_notifies(_after_untracked), C16_untracked_set_keeps_cache); provider components over an owner tree: C16_provider_scoping(_seq), C16_sibling_provider_inits_from_parent. Correspondence: random op sequences (set/set_untracked/get/scope/subcontext/memos over get_locale, t_string!, td_string!, t_display!, t_plural!/provider/child owner/use_context, accessors of every macro flavour incl. t_plural!, executor ticks at arbitrary positions) on real I18nContexts, on two harness builds: plain ssr, and one where Effects / RenderEffects really run (reactive_graph/effects); C16_ticks_invisible (Theorems/C16Ticks.lean: inserting ticks anywhere changes no observation of model or specification) and leptos owners vs model vs spec.",
+   note=BASE + "leptos' reactive runtime (closure re-execution, RwSignal atomicity, effect scheduling) is trusted; effects run natively on a FIFO executor, not in wasm; a caller-wired initial-locale signal that changes (the property's stated exception) is not exercised. See notes/C16.md.",
    tech="Lean 4 proof (refinement by induction over op lists) + differential correspondence", ref="§6 C16, notes/C16.md"),
  "C12": dict(
    text="Lean theorems over a model of langid.rs (filter_matches/find_match): for all request lists and all supported sets the chosen "
@@ -120,7 +120,7 @@ CLAIMED = {
  "C20": dict(
    text="Theorems over a model of find_used_datakey: C20_options_iff / C20_plurals_iff / C20_formatter_iff (option in the set iff some builder key records a plural count / a formatter of that family, any subkey depth, all namespaces), "
         "C20_key_uses_iff (with C08: iff some locale's value of that key contains such a node at any depth); whole pipeline (Theorems/C20Full.lean, C20Pipeline.lean): C20_pipeline(_plurals/_formatter/_of_config): whenever Pipeline.run succeeds, an option is requested iff some accessible key of some locale of some namespace, after plural merging and foreign-key resolution, contains a plural / formatter node of that family; C20_locales (the locales reported are exactly the configured ones). Correspondence: build helper parse_at_dir + get_icu_keys + get_locales + get_namespaces on projects placing plurals/formatters only in a non-default locale / subkeys / via foreign key / one namespace: "
-        "data keys = union of the used options' keys; locales = configured ones.",
+        "data keys = union of the used options' keys (up to all five options over up to four namespaces); the datagen drivers (plain / with options / with data keys) carry exactly those keys plus the supplied ones; each option's key list contains what ICU4X's constructors document; the helper accepts whatever the macro's loader accepts; locales = configured ones.",
    note=BASE + "C20_full_statement as first written (quantifying over all keys incl. surplus keys of non-default locales) is false and is kept only as a def with the counterexample; the proved statement quantifies over accessible keys. That the data keys suffice for ICU4X at run time depends on ICU's tables (oracle).", tech=P, ref="§6 C20, notes/C20.md"),
 }
 PENDING = {}
